@@ -65,6 +65,12 @@ fn committees(opts: &Opts) -> Vec<Value> {
         match rng.gen_range(0..20) {
             0 => c[0].1 = 0,
             1 if c.len() > 1 => c[1].0 = c[0].0,
+            // the same validator listed twice (identical entry): still a repeated key
+            6 if !c.is_empty() => {
+                let d = c[0];
+                let at = rng.gen_range(0..=c.len());
+                c.insert(at, d);
+            }
             2 => c.iter_mut().for_each(|v| v.2 = false),
             3 => c.iter_mut().for_each(|v| v.2 = true),
             4 => c.clear(),
